@@ -1278,8 +1278,31 @@ pub(crate) fn m_strike_layout() {
     }
 }
 
+/// The footnote list has exactly one entry per reference, `[k]: target`, also for empty and repeated targets.
+pub(crate) fn m_footnote_list() {
+    let _which: u8 = kani::any();
+    let cases: [(&str, &[&str]); 4] = [
+        ("<p><a href=\"http://a/\">alpha</a> <a href=\"\">bravo</a> <a href=\"http://c/\">charlie</a></p>", &["http://a/", "", "http://c/"]),
+        ("<p><a href=\"\">only</a></p>", &[""]),
+        ("<ul><li><a href=\"x\">one</a></li><li><a href=\"x\">two</a></li></ul><p><a href=\" \">three</a></p>", &["x", "x", " "]),
+        ("<p>no links</p>", &[]),
+    ];
+    for (html, targets) in cases.iter() {
+        let out = crate::config::plain().link_footnotes(true).string_from_read(html.as_bytes(), 60).expect("renders");
+        let entries: Vec<&str> = out.lines().filter(|l| l.starts_with('[') && l.contains("]: ") || l.ends_with("]:")).collect();
+        assert!(entries.len() == targets.len(), "{}: {} footnote lines for {} links: {:?}", html, entries.len(), targets.len(), out);
+        for (k, t) in targets.iter().enumerate() {
+            let want = format!("[{}]: {}", k + 1, t);
+            assert!(entries[k].trim_end() == want.trim_end(), "{}: footnote {} is {:?}, not {:?}", html, k + 1, entries[k], want);
+            assert!(out.contains(&format!("][{}]", k + 1)), "{}: reference [{}] missing: {:?}", html, k + 1, out);
+        }
+        let off = crate::config::plain().link_footnotes(false).string_from_read(html.as_bytes(), 60).expect("renders");
+        assert!(!off.contains("]: ") && !off.contains("]["), "{}: footnotes although disabled: {:?}", html, off);
+    }
+}
+
 crate::verif_common::registry! {
-    m_strike_layout, m_element_dispatch, m_link_min_width, m_table_sections, m_table_caption, m_inline_tags, m_colspan_huge, m_frag_in_word, m_ol_prefix_width, m_dom_reuse, m_columns, m_prefix_blank_lines, m_shallow_empty, m_link_footnotes, m_strike_affix, m_frag_nested, m_dom_children, m_cell_unwind, m_routes_width, m_insert_child, m_ol_numbering, m_prefix_width, m_into_cells, m_table_col_width, m_table_alloc,
+    m_footnote_list, m_strike_layout, m_element_dispatch, m_link_min_width, m_table_sections, m_table_caption, m_inline_tags, m_colspan_huge, m_frag_in_word, m_ol_prefix_width, m_dom_reuse, m_columns, m_prefix_blank_lines, m_shallow_empty, m_link_footnotes, m_strike_affix, m_frag_nested, m_dom_children, m_cell_unwind, m_routes_width, m_insert_child, m_ol_numbering, m_prefix_width, m_into_cells, m_table_col_width, m_table_alloc,
     r1_cascade_pairs, r1_cascade_triples, r2_specificity_order, r2_specificity_add,
     r3_ol_prefix_total, r4_ol_prefix_is_max,
     r9_tree_map_reduce_order, r12_config_plumbing, r12_width_zero,
